@@ -30,6 +30,7 @@ import (
 	"github.com/apache/yunikorn-core/pkg/scheduler/objects"
 	"github.com/apache/yunikorn-core/pkg/scheduler/objects/template"
 	"github.com/apache/yunikorn-core/pkg/scheduler/placement"
+	"github.com/apache/yunikorn-core/pkg/scheduler/ugm"
 	"github.com/apache/yunikorn-core/pkg/webservice/dao"
 )
 
@@ -43,6 +44,7 @@ type reloadDrv struct {
 	// subtrees dropped by earlier mutations: path of the parent -> queue configurations (for re-adding)
 	dropped []droppedQ
 	pad     int
+	probes  int
 }
 
 type droppedQ struct {
@@ -282,6 +284,7 @@ func dumpQueueExt(q *objects.Queue, out *[]map[string]interface{}) {
 			"backoff": q.GetMaxAppUnschedAskBackoff(), "backoffDelay": int64(q.GetBackoffDelay())},
 		"allocated": resOrEmpty(q.GetAllocatedResource()), "pending": resOrEmpty(q.GetPendingResource()), "preempting": resOrEmpty(q.GetPreemptingResource()),
 		"apps": apps, "reserved": resv, "running": d.RunningApps, "allocating": allocating,
+		"offered": sortedCopy(q.VerifSortedChildren()),
 	})
 	children := q.GetCopyOfChildren()
 	names := make([]string, 0, len(children))
@@ -292,6 +295,13 @@ func dumpQueueExt(q *objects.Queue, out *[]map[string]interface{}) {
 	for _, n := range names {
 		dumpQueueExt(children[n], out)
 	}
+}
+
+// the order among ties depends on map iteration (and is C19's subject): the dump carries the set
+func sortedCopy(l []string) []string {
+	out := append([]string{}, l...)
+	sort.Strings(out)
+	return out
 }
 
 func dumpPartExt(p *scheduler.PartitionContext) map[string]interface{} {
@@ -474,9 +484,120 @@ func (d *reloadDrv) exec(name string, op map[string]interface{}, line map[string
 		for _, p := range d.core.s.cc.GetPartitionMapClone() {
 			p.VerifCleanQueues()
 		}
+	case "probe":
+		d.probe(int(jsonInt(op["n"])), line)
 	default:
 		d.core.exec(name, op, line)
 	}
+}
+
+// ---------------------------------------------------------------- liveness probe
+
+// probe checks that applications keep being scheduled whatever the state of their leaf: a node with room for
+// everything is registered, every live application gets one small ask (cpu 1), scheduling cycles run until two in a row
+// allocate nothing, and the line records for every probe ask whether it was allocated and, if not, whether anything the
+// scheduler looks at stands in its way at that point (application state and run gates, back-off, queue headroom,
+// user/group headroom, room on the node). The probe asks and the node are removed again afterwards.
+func (d *reloadDrv) probe(n int, line map[string]interface{}) {
+	s := d.core.s
+	scratch := map[string]interface{}{}
+	node := fmt.Sprintf("np%d", n)
+	capacity := resources.NewResourceFromMap(map[string]resources.Quantity{"cpu": 100000, "mem": 100000, "gpu": 1000})
+	d.core.exec("node", norm(map[string]interface{}{"id": node, "action": "create", "res": encRes(capacity)}), scratch)
+	type probeAsk struct {
+		app  *objects.Application
+		key  string
+		info map[string]interface{}
+	}
+	var asks []probeAsk
+	apps := s.part.GetApplications()
+	sort.Slice(apps, func(i, j int) bool { return apps[i].ApplicationID < apps[j].ApplicationID })
+	one := resources.NewResourceFromMap(map[string]resources.Quantity{"cpu": 1})
+	for _, app := range apps {
+		st := app.CurrentState()
+		if st != "New" && st != "Accepted" && st != "Running" && st != "Completing" {
+			continue
+		}
+		q := s.part.GetQueue(app.GetQueuePath())
+		if q == nil {
+			continue
+		}
+		ancDraining, ancLeaf := false, false
+		path := q.GetQueuePath()
+		for i := strings.LastIndex(path, "."); i > 0; i = strings.LastIndex(path[:i], ".") {
+			if a := s.part.GetQueue(path[:i]); a != nil {
+				if a.IsDraining() {
+					ancDraining = true
+				}
+				if a.IsLeafQueue() {
+					ancLeaf = true
+				}
+			}
+		}
+		key := fmt.Sprintf("pk%d-%s", n, app.ApplicationID)
+		info := map[string]interface{}{"app": app.ApplicationID, "key": key, "queue": path, "qstate": q.CurrentState(), "leaf": q.IsLeafQueue(),
+			"managed": q.IsManaged(), "ancDraining": ancDraining, "ancLeaf": ancLeaf, "gang": !resources.IsZero(app.GetPlaceholderAsk()), "stateBefore": st}
+		d.core.exec("alloc", norm(map[string]interface{}{"app": app.ApplicationID, "key": key, "res": encRes(one), "ctime": 900000 + n, "prio": 0, "preemptOther": false}), scratch)
+		asks = append(asks, probeAsk{app, key, info})
+	}
+	cycles, idle := 0, 0
+	for cycles < 400 && idle < 2 {
+		cycles++
+		if s.cc.VerifSchedule() {
+			idle = 0
+		} else {
+			idle++
+		}
+	}
+	line["cycles"] = cycles
+	out := []interface{}{}
+	nodeObj := s.part.GetNode(node)
+	for _, a := range asks {
+		allocated := false
+		for _, al := range a.app.GetAllAllocations() {
+			if al.GetAllocationKey() == a.key {
+				allocated = true
+			}
+		}
+		a.info["alloc"] = allocated
+		a.info["stateAfter"] = a.app.CurrentState()
+		if !allocated {
+			// what the scheduler would look at now, in the order it does
+			pending := false
+			for _, r := range a.app.GetAllRequests() {
+				if r.GetAllocationKey() == a.key && !r.IsAllocated() {
+					pending = true
+				}
+			}
+			a.info["pending"] = pending
+			q := s.part.GetQueue(a.app.GetQueuePath())
+			runnable := true
+			if a.app.IsAccepted() && q != nil {
+				runnable = q.VerifCanRunApp(a.app.ApplicationID) && ugmCanRun(a.app)
+			}
+			a.info["runnable"] = runnable
+			dl := a.app.GetBackoffDeadline()
+			a.info["backoff"] = !dl.IsZero() && time.Now().Before(dl)
+			a.info["qfit"] = q != nil && q.VerifGetHeadRoom().FitInMaxUndef(one)
+			a.info["ufit"] = ugmHeadroom(a.app).FitInMaxUndef(one)
+			a.info["nodeRoom"] = nodeObj != nil && nodeObj.IsSchedulable() && nodeObj.GetAvailableResource().FitIn(one)
+		}
+		out = append(out, a.info)
+	}
+	line["probes"] = out
+	// undo: the probe asks / allocations and the node
+	for _, a := range asks {
+		d.core.exec("release", norm(map[string]interface{}{"app": a.app.ApplicationID, "key": a.key, "type": "STOPPED_BY_RM"}), scratch)
+	}
+	d.core.exec("node", norm(map[string]interface{}{"id": node, "action": "decommission"}), scratch)
+}
+
+func ugmCanRun(app *objects.Application) bool {
+	return ugm.GetUserManager().CanRunApp(app.GetQueuePath(), app.ApplicationID, app.GetUser())
+}
+
+func ugmHeadroom(app *objects.Application) *resources.Resource {
+	return ugm.GetUserManager().Headroom(app.GetQueuePath(), app.ApplicationID, app.GetUser())
 }
 
 // ---------------------------------------------------------------- generator: configurations
@@ -1171,6 +1292,11 @@ func reloadHistory(c *Ctx, d *reloadDrv) {
 				emit(map[string]interface{}{"op": "schedule"})
 			}
 			emit(d.genReload())
+			if c.chance(0.4) {
+				// do the applications of every kind of leaf still get their asks allocated after this update?
+				d.probes++
+				emit(map[string]interface{}{"op": "probe", "n": d.probes})
+			}
 		}
 		for len(s.pendConf) > 0 && c.chance(0.7) {
 			conf := s.pendConf[0]
@@ -1204,7 +1330,7 @@ func reloadHistory(c *Ctx, d *reloadDrv) {
 }
 
 var reloadInputKeys = map[string]bool{"st": true, "msgs": true, "c": true, "out": true, "panic": true, "error": true, "hang": true, "cfg": true, "fresh": true,
-	"yaml": true, "valid": true, "invalid": true, "rules": true}
+	"yaml": true, "valid": true, "invalid": true, "rules": true, "probes": true, "cycles": true}
 
 func runReload(c *Ctx) {
 	d := &reloadDrv{c: c, core: &coreDrv{c: c, id: "reload"}}
